@@ -50,6 +50,14 @@ func toPatches(vals []interface{}) []patch.Patch {
 	return ps
 }
 
+// c11OriginSpy records the anchor origins the parser hands to the configured origin validator.
+type c11OriginSpy struct{ seen []interface{} }
+
+func (o *c11OriginSpy) Validate(v interface{}) error {
+	o.seen = append(o.seen, v)
+	return nil
+}
+
 // c11ServerTime accepts a window that contains the server time.
 type c11ServerTime int64
 
@@ -72,7 +80,7 @@ func jsonEq(a, b interface{}) bool {
 
 func c11(r *hx.Run) {
 	fx.Quiet()
-	r.Rule = "full product of builder inputs: 5 key types (EdDSA, ES256, ES384, ES512, ES256K) x 2 hash algorithms x {opaque document, patch list} x anchor origin {nil, string, object} x window {none, from only, from+until} x nonce {absent, 16 bytes} x kid {absent, present}, plus 16 configurations whose signing keys have a coordinate with a leading zero byte; the four client builders with the library's signers and JWK conversion produce create/update/recover/deactivate requests; each must be accepted by the real parser (configured with a server-time window validator, T inside every supplied window), parse back to the supplied suffix, commitments, patches, reveal value, key and window, and - anchored inside the window on a DID whose commitment matches - resolve on the real processor to the state computed by ref/doc + the supplied commitments. Non-trivial: every configuration (all reach resolution)."
+	r.Rule = "full product of builder inputs: 5 key types (EdDSA, ES256, ES384, ES512, ES256K) x 2 hash algorithms x {opaque document, patch list} x anchor origin {nil, string, object} x window {none, from only, from+until} x nonce {absent, 16 bytes} x kid {absent, present}, plus 16 configurations whose signing keys have a coordinate with a leading zero byte; the four client builders with the library's signers and JWK conversion produce create/update/recover/deactivate requests; each must be accepted by the real parser (configured with a server-time window validator, T inside every supplied window, and an anchor-origin validator that must see exactly the supplied origin of create and recover), parse back to the supplied suffix, commitments, patches, reveal value, key and window, and - anchored inside the window on a DID whose commitment matches - resolve on the real processor to the state computed by ref/doc + the supplied commitments. Non-trivial: every configuration (all reach resolution)."
 	const T = 1000000
 	type cfg struct {
 		kt     string
@@ -123,7 +131,8 @@ func c11(r *hx.Run) {
 		p.MaxOperationTimeDelta = 300007
 		// intake validates the signed window against the server time T (a validator in the style of a deployment: from <= T < until;
 		// 0/0 means no window)
-		ver := fx.NewVersion(p, &fx.VersionOpts{ParserOpts: []operationparser.Option{operationparser.WithAnchorTimeValidator(c11ServerTime(T))}})
+		originSpy := &c11OriginSpy{}
+		ver := fx.NewVersion(p, &fx.VersionOpts{ParserOpts: []operationparser.Option{operationparser.WithAnchorTimeValidator(c11ServerTime(T)), operationparser.WithAnchorOriginValidator(originSpy)}})
 		cl := fx.NewClient(ver)
 		nonce := ""
 		if c.nonce {
@@ -189,6 +198,10 @@ func c11(r *hx.Run) {
 			fail("built-request-rejected:create", err.Error())
 			return
 		}
+		if len(originSpy.seen) != 1 || !jsonEq(originSpy.seen[0], origins[c.origin]) {
+			fail("origin-validator:create", fmt.Sprintf("the configured anchor-origin validator saw %v at create intake, want exactly [%v]", originSpy.seen, origins[c.origin]))
+		}
+		originSpy.seen = nil
 		suffix := cop.UniqueSuffix
 		var ctree map[string]interface{}
 		_ = json.Unmarshal(createReq, &ctree)
@@ -240,6 +253,10 @@ func c11(r *hx.Run) {
 			fail("built-request-rejected:recover", err.Error())
 			return
 		}
+		if len(originSpy.seen) != 1 || !jsonEq(originSpy.seen[0], rorigin) {
+			fail("origin-validator:recover", fmt.Sprintf("the configured anchor-origin validator saw %v at recover intake, want exactly [%v]", originSpy.seen, rorigin))
+		}
+		originSpy.seen = nil
 		rsd, err := ver.Parser.ParseSignedDataForRecover(rop.SignedData)
 		if err != nil || rop.UniqueSuffix != suffix || rop.RevealValue != fx.RevealN(keys["r0"], c.code, nonce) || rop.Delta.UpdateCommitment != commits["u2"] ||
 			rsd.RecoveryCommitment != commits["r1"] || rsd.AnchorFrom != from || rsd.AnchorUntil != until || *rsd.RecoveryKey != *jwks["r0"] || !jsonEq(rsd.AnchorOrigin, rorigin) {
